@@ -1,5 +1,6 @@
 """C15 - consensus pseudo-reads are well-formed and span exactly the molecule coverage.
 Spec: spec/PseudoRead.tla (P+D level), spec/Trace_PseudoRead.tla. Driver: harness/drive_pseudoread.py (+ molgen.py)."""
+import concurrent.futures
 import json
 import os
 
@@ -71,9 +72,23 @@ def run(tier):
     trace = os.path.join(vlib.scratch(), 'pseudoread.ndjson')
     vlib.run_driver('drive_pseudoread.py', [trace, tier, c.seed])
     events = vlib.read_ndjson(trace)
-    r = vlib.validate_trace('Trace_PseudoRead', trace, n_events=len(events), constants=TRACE_CONSTANTS)
-    c.add_trace_result(r, events, key_fn, what_fn, sample_n=1)
-    if not r['rejects']:
+    # events are independent: validate chunks with parallel TLC processes
+    k = 1 if q else 4
+    size = (len(events) + k - 1) // k
+
+    def one(i):
+        sub = events[i * size:(i + 1) * size]
+        p = vlib.write_ndjson(os.path.join(vlib.scratch(), 'pseudoread_%d.ndjson' % i), sub)
+        cfg = vlib.write_cfg(os.path.join(vlib.scratch(), 'trace_pseudoread_%d.cfg' % i), init='TInit', next_='TNext',
+                             postcondition='TAccepted', constants=TRACE_CONSTANTS)
+        return sub, vlib.validate_trace('Trace_PseudoRead', p, n_events=len(sub), cfg=cfg, heap='4g')
+    with concurrent.futures.ThreadPoolExecutor(max_workers=k) as ex:
+        results = [x for x in ex.map(one, range(k)) if x[0]]
+    n_rejects = 0
+    for sub, r in results:
+        c.add_trace_result(r, sub, key_fn, what_fn, sample_n=1)
+        n_rejects += len(r['rejects'])
+    if not n_rejects:
         good = [e for e in events if e['ev'] == 'pseudo' and len(e.get('records', [])) >= 1
                 and any(o['op'] == 'N' for o in e['records'][0]['cigar'])][:3]
         if len(good) < 3:
